@@ -52,9 +52,9 @@ func c03(c *Ctx) {
 		prepFile(f)
 		switch i % 3 {
 		case 1:
-			f.Imports = append(f.Imports, `str "strings"`, `"fmt"`)
+			f.Imports = append(f.Imports, `str "strings"`, `"fmt"`, `stdio "io"`, `c "context"`)
 			f.Chrome = append(f.Chrome, "")
-			f.Chrome[0] += "\nvar _ = str.ToUpper\nvar _ = fmt.Sprint\n"
+			f.Chrome[0] += "\nvar _ = str.ToUpper\nvar _ = fmt.Sprint\nvar _ = stdio.Discard\nvar _ c.Context\n"
 			f.ImportGroup = true
 		case 2:
 			f.Imports = append(f.Imports, `"context"`, `"io"`) // duplicates of goht's own
@@ -81,10 +81,10 @@ func c03(c *Ctx) {
 			if seen[m.kind] || !strings.Contains(src, m.from) {
 				continue
 			}
-			if k := strings.Index(src, m.from); k >= 11 && src[k-11:k] == "@attributes" {
+			if k := strings.Index(src, m.from); (k >= 11 && src[k-11:k] == "@attributes") || (strings.HasPrefix(m.from, ":") && strings.HasSuffix(src[:k+1], "@attributes:")) {
 				continue // the argument list of @attributes takes values of any type by design
 			}
-			if k := strings.Index(src, m.from); k >= 6 && src[k-6:k] == "class:" {
+			if k := strings.Index(src, m.from); (k >= 6 && src[k-6:k] == "class:") || (strings.HasPrefix(m.from, ":") && strings.HasSuffix(src[:k+1], "class:")) {
 				continue // so does a class list
 			}
 			if c.N(0, 1) == 0 && len(seen) >= 3 {
